@@ -94,7 +94,7 @@ func (m *c04mon) Check(s *sim.Sim, st *sim.Step) []*sim.Violation {
 			}
 		case "totp_validate", "sms_validate":
 			kind := strings.SplitN(flow, "_", 2)[0]
-			u := rec.Before.Users[subjectPID(rec.SessIn, kind)]
+			u := rec.Before.Users[subjectOf(s, rec, kind)]
 			if u == nil {
 				return nil
 			}
@@ -183,7 +183,7 @@ func (m *c04mon) Sig(s *sim.Sim, st *sim.Step) string {
 	flow := flowOf(s, rec)
 	pid := st.Act.PID
 	if strings.HasSuffix(flow, "_validate") {
-		pid = subjectPID(rec.SessIn, strings.SplitN(flow, "_", 2)[0])
+		pid = subjectOf(s, rec, strings.SplitN(flow, "_", 2)[0])
 	}
 	if flow == "" && !strings.HasPrefix(st.Act.Kind, "admin_") {
 		return ""
